@@ -2,7 +2,7 @@
    extraction and for vm_compute cross-checks. *)
 From Coq Require Import ZArith List Bool Arith Lia.
 From Coq Require Import QArith.
-From RV Require Import Val Syntax Rho Offline Online Sat IA Pastify Jitter Units Support Lexer Parser Elab Dense ExtZ.
+From RV Require Import Val Syntax Rho Offline Online Sat IA Pastify Jitter Units Support Lexer Parser Elab Dense DenseSem DenseMerge ExtZ.
 Import ListNotations.
 
 Definition zformula := @formula ExtZVal.
@@ -54,6 +54,16 @@ Fixpoint dn_exact (pk : zformula -> zformula -> pkind) (p : zformula) (W : list 
   | And f g | Or f g | Implies f g | Since f g | Until f g
   | SinceT _ _ f g | UntilT _ _ f g | Precedes _ _ f g => dn_exact pk f W && dn_exact pk g W
   end.
+
+(* the dense-time semantics at every tick of [t0, tend] *)
+Definition run_rhoz (pk : zformula -> zformula -> pkind) (p : zformula) (W : list (list (Z * extz))) (t0 tend : Z) : list extz :=
+  map (rhoZ ExtZArith pk W tend p) (zrange t0 tend).
+
+(* the 13-case merge of intersection.py with one of a few combining functions *)
+Definition run_isect (op : nat) (s1 s2 : list (Z * extz)) : option (list (Z * extz)) :=
+  isect (match op with
+         | O => vmin | 1%nat => vmax
+         | 2%nat => a2 ExtZArith Sub | _ => a2 ExtZArith Add end) s1 s2.
 
 Definition run_hor (p : zformula) : nat := hor p.
 Definition run_bounded_future (p : zformula) : bool := bounded_future p.
